@@ -100,6 +100,8 @@ class Recorder:
 
     def check(self, entry, clause, ok, mech=None, detail=None, sig=None):
         """ok: True (held), False (violated), None (ambiguous)."""
+        if ok is not None:
+            ok = bool(ok)  # numpy bools are not `is True` / `is False`
         kind = "ok" if ok is True else ("ambiguous" if ok is None else "violation")
         self.count(entry, clause, kind)
         if sig is not None and ok is True:
